@@ -22,6 +22,17 @@ import torch
 from . import CostSpec
 from .pattern import Conv2dGeneric, LinearGeneric, Conv2dDW
 
+# The layer cost functions below divide by the weight selection coefficient because the calling
+# function multiplies by it. A vanishing (but non-zero) coefficient, i.e. a saturated softmax at
+# low temperature, must not make that quotient (or its gradient) overflow.
+_MIN_THETA_ALPHA = 1e-12
+
+
+def _safe_theta_alpha(theta_alpha):
+    if isinstance(theta_alpha, torch.Tensor):
+        return torch.clamp(theta_alpha, min=_MIN_THETA_ALPHA)
+    return max(theta_alpha, _MIN_THETA_ALPHA)
+
 
 class FloorDivideSTE(torch.autograd.Function):
     @staticmethod
@@ -392,7 +403,8 @@ def _ne16_latency_conv2d_generic(spec):
         depthwise=is_depthwise,
         weights_bitwidth=w_prec,
         layer=layer_params)
-    cost = latency / spec['w_theta_alpha'] # division due to the product in the calling function
+    # division due to the product in the calling function
+    cost = latency / _safe_theta_alpha(spec['w_theta_alpha'])
     return cost
 
 
@@ -424,7 +436,7 @@ def _ne16_latency_conv2d_dw(spec):
         depthwise=is_depthwise,
         weights_bitwidth=w_prec,
         layer=layer_params)
-    cost = latency / spec['w_theta_alpha']
+    cost = latency / _safe_theta_alpha(spec['w_theta_alpha'])
     return cost
 
 
@@ -453,7 +465,7 @@ def _ne16_latency_linear(spec):
                 depthwise=is_depthwise,
                 weights_bitwidth=w_prec,
                 layer=layer_params)
-    cost = latency / spec['w_theta_alpha']
+    cost = latency / _safe_theta_alpha(spec['w_theta_alpha'])
     return cost
 
 
